@@ -155,6 +155,35 @@ func init() {
 		}
 		return zeroValueOf(fr, rV2T(args[0]).t, rV2V(args[0]))
 	})
+	reg("(reflect.Value).Pointer", "identity of the map / slice backing store / pointee (host address, used for identity only)", func(fr *frame, args []value) value {
+		if !rvValid(args[0]) {
+			reflectPanic("reflect: call of reflect.Value.Pointer on zero Value")
+		}
+		switch x := rV2V(args[0]).(type) {
+		case map[value]value:
+			if x == nil {
+				return uintptr(0)
+			}
+			return reflect.ValueOf(x).Pointer()
+		case *hashmap:
+			if x == nil {
+				return uintptr(0)
+			}
+			return reflect.ValueOf(x).Pointer()
+		case []value:
+			if cap(x) == 0 {
+				return uintptr(0)
+			}
+			return reflect.ValueOf(x[:1]).Pointer()
+		case *value:
+			if x == nil {
+				return uintptr(0)
+			}
+			return reflect.ValueOf(x).Pointer()
+		}
+		unsupported("reflect.Value.Pointer on %s", kindOf(rV2T(args[0]).t).String())
+		return nil
+	})
 	reg("(reflect.Value).IsNil", "type-tag model", func(fr *frame, args []value) value {
 		if !rvValid(args[0]) {
 			reflectPanic("reflect: call of reflect.Value.IsNil on zero Value")
